@@ -3,6 +3,7 @@ package rules
 import (
 	"fmt"
 	"go/ast"
+	"go/constant"
 	"go/token"
 	"go/types"
 	"strings"
@@ -245,9 +246,21 @@ func c05codec(c *Ctx, p *load.Program, pkgPath, prefix string) {
 		nfix++
 		nName := types.ExprString(as.Lhs[0])
 		cond := types.ExprString(ifs.Cond)
-		want := fmt.Sprintf("%s != %d", nName, arr.Len())
+		// `… || n != <array length>` with the length as a literal or a named constant
+		okCnt := false
+		if be, isBin := ifs.Cond.(*ast.BinaryExpr); isBin && be.Op == token.LOR {
+			for _, side := range []ast.Expr{be.X, be.Y} {
+				if ne, isNe := side.(*ast.BinaryExpr); isNe && ne.Op == token.NEQ && types.ExprString(ne.X) == nName {
+					if tv, has := pk.TypesInfo.Types[ne.Y]; has && tv.Value != nil {
+						if kv, exact := constant.Int64Val(tv.Value); exact && kv == arr.Len() {
+							okCnt = true
+						}
+					}
+				}
+			}
+		}
 		R.Check(prefix+".short-read", R.Key(prefix+".short-read", "Unmarshal", "read:"+types.ExprString(sl.X)), c.rel(p.Pos(ce.Pos())),
-			fmt.Sprintf("Read into %s [%d bytes] rejects a short count", types.ExprString(sl.X), arr.Len()), strings.Contains(cond, want) && strings.Contains(cond, "||"), "condition: "+cond)
+			fmt.Sprintf("Read into %s [%d bytes] rejects a short count", types.ExprString(sl.X), arr.Len()), okCnt, "condition: "+cond)
 		return true
 	})
 	R.Floor(prefix+".short-read", nfix, 2)
@@ -289,6 +302,32 @@ func versionByte(pk interface{}, fd *ast.FuncDecl, vname, dataName string) (toke
 // localDestinations maps a local variable that receives read bytes to the VAA field it is stored into.
 func localDestinations(pk interface{}, fd *ast.FuncDecl, vname string) map[string]string {
 	out := map[string]string{}
+	// names that stand for the VAA's signature list: v.Signatures and every local that is
+	// (transitively) assigned to it — `sigs := make(…); …; v.Signatures = sigs`, possibly through
+	// the result variable of an inlined helper
+	sigAlias := map[string]bool{vname + ".Signatures": true}
+	for round := 0; round < 4; round++ {
+		ast.Inspect(fd.Body, func(n ast.Node) bool {
+			as, ok := n.(*ast.AssignStmt)
+			if !ok || len(as.Lhs) != len(as.Rhs) {
+				return true
+			}
+			for k := range as.Lhs {
+				if id, isID := as.Rhs[k].(*ast.Ident); isID && sigAlias[types.ExprString(as.Lhs[k])] {
+					sigAlias[id.Name] = true
+				}
+			}
+			return true
+		})
+	}
+	isSigElem := func(lhs string) bool {
+		for a := range sigAlias {
+			if strings.HasPrefix(lhs, a+"[") {
+				return true
+			}
+		}
+		return false
+	}
 	ast.Inspect(fd.Body, func(n ast.Node) bool {
 		as, ok := n.(*ast.AssignStmt)
 		if !ok || len(as.Lhs) != 1 || len(as.Rhs) != 1 {
@@ -296,9 +335,9 @@ func localDestinations(pk interface{}, fd *ast.FuncDecl, vname string) map[strin
 		}
 		lhs, rhs := types.ExprString(as.Lhs[0]), types.ExprString(as.Rhs[0])
 		switch {
-		case lhs == vname+".Signatures" && strings.HasPrefix(rhs, "make([]*Signature, "):
+		case sigAlias[lhs] && strings.HasPrefix(rhs, "make([]*Signature, "):
 			out[strings.TrimSuffix(strings.TrimPrefix(rhs, "make([]*Signature, "), ")")] = "len(Signatures)"
-		case strings.HasPrefix(lhs, vname+".Signatures["):
+		case isSigElem(lhs):
 			if ue, ok := as.Rhs[0].(*ast.UnaryExpr); ok {
 				if cl, ok := ue.X.(*ast.CompositeLit); ok {
 					for _, el := range cl.Elts {
